@@ -291,6 +291,11 @@ struct StreamSim : Sim {
                 std::string focus = focus_in;
                 bool thorough = thorough_in;
                 uint64_t run_index = run_index_in;
+                if (focus_in == "HUGEGCM") {
+                        focus = "C07";
+                        run_index = run_index_in % 8;
+                        thorough = false;
+                }
                 if (focus_in == "HUGE") {
                         static const char *hf[4] = { "C05", "C10", "C09", "C07" };
                         static const uint64_t hq[4] = { 10, 5, 6, 8 };
@@ -1407,6 +1412,19 @@ struct StreamSim : Sim {
                                            "(tag %s vs %s, output %s)",
                                            site.c_str(), (unsigned long long) n, hex(ee.tag.data(), ee.tag.size()).c_str(), hex(b.tag.data(), b.tag.size()).c_str(),
                                            ee.outh == b.outh ? "equal" : "differs"));
+                // an AAD of exactly 2^32 bytes (a zero low dword in its length): init + finalize, judged by the monitors only
+                {
+                        const uint64_t big_aad = 1ull << 32;
+                        gcm_secrets(s, c);
+                        s.r->cov.hit("probe_gcm_aad_of_2^32_bytes");
+                        if (c.api) {
+                                SlotGuard sg;
+                                sg.set(S.d_init[c.ks], S.ginit[c.ks][c.fam]);
+                                e.call(strfmt("isal_aes_gcm_init_%d", bits).c_str(), S.isal_init[c.ks], { U(c.key_data), U(c.ctx), U(c.iv), U(g_hwin + 64), big_aad });
+                        } else
+                                e.call(strfmt("_aes_gcm_init_%d_%s", bits, fam).c_str(), S.ginit[c.ks][c.fam], { U(c.key_data), U(c.ctx), U(c.iv), U(g_hwin + 64), big_aad });
+                        fin_call(tag);
+                }
                 e.check_buf(tag, "gcm huge");
                 e.check_buf(c.ctx, "gcm huge");
                 e.check_buf(c.key_data, "gcm huge");
@@ -1623,3 +1641,10 @@ struct StreamHugeSim : StreamSim {
 };
 } // namespace
 Sim *make_streamhuge_sim() { return new StreamHugeSim(); }
+namespace {
+struct GcmHugeSim : StreamSim {
+        const char *name() const override { return "gcmhuge"; }
+        Plan generate(uint64_t seed, const std::string &, bool thorough, uint64_t idx) override { return StreamSim::generate(seed, "HUGEGCM", thorough, idx); }
+};
+} // namespace
+Sim *make_gcmhuge_sim() { return new GcmHugeSim(); }
